@@ -45,7 +45,7 @@ func (s c01Stream) open(w *hworld.World) (*hworld.Conn, error) {
 }
 
 func c01HTTP(r *ev.Result) {
-	ids := []string{"k", "kk", "K", "k%2Fx", "k%20", "%6B"} /* %6B decodes to k */
+	ids := []string{"k", "kk", "K", "k%2Fx", "k%20", "%6B", "%256B"} /* %6B decodes to k; %256B decodes to the three characters %6B, another ID */
 	var streams []c01Stream
 	for _, id := range ids {
 		streams = append(streams, c01Stream{"i", id}, c01Stream{"o", id})
